@@ -5,11 +5,12 @@ import runner
 from props.parts import _lib2 as L
 
 NS = "EngineModel.Properties.C11Lib2."
-LEAN_MODULES = ["Properties.C11Lib2"]
+LEAN_MODULES = ["Properties.C11Lib2", "Properties.C11Lib2Blobs"]
 THEOREMS = [NS + t for t in [
     "C11Lib2_step_preserves", "C11Lib2_reachable", "C11Lib2_reachable_exec", "C11Lib2_exec_iff",
     "C11Lib2_from_any_wellformed", "C11Lib2_referential_integrity", "C11Lib2_foreign_key_check_clean",
-    "C11Lib2_reachable_foreign_key_check_clean", "C11Lib2_failed_call_unchanged", "C11Lib2_unscoped_counterexample"]]
+    "C11Lib2_reachable_foreign_key_check_clean", "C11Lib2_failed_call_unchanged", "C11Lib2_unscoped_counterexample",
+    "C11Lib2_stored_blobs_decode", "C11Lib2_framed_blobs_decode", "C11Lib2_reachable_rows_encodable"]]
 ASSUMPTIONS = [
     "2.x composite (Lib/V2.lean): SqliteSemantics as in the track and crate packages, plus: trigger_after_update_Track "
     "(schemas before 2.20.3) appends one ChangeLog row per UPDATE of a Track row, the nested UPDATE of the fix_origin "
